@@ -325,8 +325,22 @@ def run_lines(exe, lines, timeout=1800, env=None):
 PANIC_MESSAGES = {}   # result text -> panic message of the last implementation run (what an uncaught panic would print)
 
 
-def run_impl(lines, timeout=1800):
-    res, note = run_lines(os.path.join(BUILD, "spgdrive"), lines, timeout, env=GOENV)
+def env_gates():
+    """environment variables the library source consults: string literals handed to os.Getenv / os.LookupEnv in the non-test
+    files of the package (empty on the pinned tree).  The search for a failing input re-runs cases with each of them set."""
+    names = set()
+    for f in sorted(os.listdir(REPO)):
+        if f.endswith(".go") and not f.endswith("_test.go"):
+            try:
+                src = open(os.path.join(REPO, f), encoding="utf-8", errors="replace").read()
+            except OSError:
+                continue
+            names.update(re.findall(r'os\.(?:Getenv|LookupEnv)\(\s*"([A-Za-z_][A-Za-z0-9_]*)"', src))
+    return sorted(names)
+
+
+def run_impl(lines, timeout=1800, extra_env=None):
+    res, note = run_lines(os.path.join(BUILD, "spgdrive"), lines, timeout, env=dict(GOENV, **extra_env) if extra_env else GOENV)
     for k, v in list(res.items()):
         i = v.rfind(" pmsg=")
         if i >= 0:
